@@ -13,6 +13,10 @@ Enumerated (complete product, no sampling):
     grids, sample(coords), SampleImage, AlignImage(None), TransformImage(None),
     functional core.image.grid_sample / sample_image on plain tensors}; the three module APIs additionally
     with every explicit `axes` value (grid, world, cube, cube_corners), the target points being handed in those axes
+Memory layout (sub-check 'layout', reduced menu of 16 configurations x all API forms x 3 paddings): the image data
+(Image / ImageBatch / functional / module input) and the explicit coordinate tensors (sample(coords), grid_sample,
+sample_image, SampleImage grid points) handed over as transposed view, step-sliced view and - for batch-invariant
+operands - stride-0 expanded batch; oracle = result of the contiguous form (differential), operands unchanged.
 Every sampling call is executed twice on the same receiver / input objects: the inputs must be bit-identical before
 and after the call (signature .../input-mutated) and the two results must be bit-identical (.../repeat-call).
 
@@ -33,6 +37,7 @@ from mc.core import Acc, exc_text, guarded, h64
 from ref import grid as rg
 from ref import interp as ri
 from ref.grid import RefGrid
+from ref import layout as rl
 
 # imported here (not lazily) so that the freshly forked shard processes inherit the loaded modules (~1 s per process)
 import deepali.data  # noqa: F401,E402
@@ -48,7 +53,9 @@ RULE = (
     "form (module APIs also x explicit axes in {grid, world, cube, cube_corners}), every call executed twice on the same "
     "objects (inputs fingerprinted before/after, results bit-identical), executed on the real code and compared sample by sample with SimpleITK (inside the source field of view) and "
     "an own float64 interpolator (padding region); distinct = exact bits of the returned tensor; non-trivial = target "
-    "differs from the source grid and at least 25% of its samples lie inside the source field of view"
+    "differs from the source grid and at least 25% of its samples lie inside the source field of view; layout: on a reduced "
+    "menu (2 sources x 2 targets x 2 flag pairs per D, all API forms, 3 paddings) image data and coordinate tensors as "
+    "transposed / step-sliced / stride-0 expanded views must give the result of the contiguous form and stay unchanged"
 )
 EXPLANATION = "exhaustive product of resampling configurations against ITK's resampler and a float64 reference interpolator"
 ASSUMPTIONS = [
@@ -62,7 +69,7 @@ ASSUMPTIONS = [
 # measured (quick): 221760 configurations, 18289 distinct result tensors, 173768 non-trivial; thorough = 3 x the sources
 MIN_NONTRIVIAL = {"quick": 85000, "thorough": 200000}
 MIN_OUTCOMES = {"quick": 9000, "thorough": 20000}
-MIN_SUB_TRACES = {"fov": 110000, "own-grid": 1100, "coords": 13000, "padding": 50000, "input-fingerprint": 110000, "repeat-call": 110000}
+MIN_SUB_TRACES = {"fov": 110000, "own-grid": 1100, "coords": 13000, "padding": 50000, "input-fingerprint": 110000, "repeat-call": 110000, "layout": 2500}
 
 EPS32 = 2.0 ** -23
 CTOL = 64.0
@@ -358,8 +365,14 @@ def _fingerprint(tensors) -> bytes:
     return b"|".join(str(t.dtype).encode() + str(tuple(t.shape)).encode() + t.detach().contiguous().numpy().tobytes() for t in tensors)
 
 
-def prepare(ctx: Ctx, api: str, bform: str, mode: str, padding: str):
-    """Build fresh inputs and the receiver of one API form. Returns (plan, do, inputs): plan = [(content item,
+class NotApplicable(Exception):
+    pass
+
+
+def prepare(ctx: Ctx, api: str, bform: str, mode: str, padding: str, layout=None):
+    """layout = (argument, form): the named user tensor ('data' = image data, 'coords' = explicit coordinates / module
+    grid points) is handed over in the memory layout `form` of ref/layout.py (same values).
+    Build fresh inputs and the receiver of one API form. Returns (plan, do, inputs): plan = [(content item,
     source idx, target idx)] per output item, do() = one sampling call on the SAME receiver / input objects returning
     a tensor (N, C, *shape), inputs = every tensor handed to deepali (for the before/after fingerprint)."""
     from deepali.core.grid import Axes
@@ -376,39 +389,78 @@ def prepare(ctx: Ctx, api: str, bform: str, mode: str, padding: str):
     t32 = [torch.from_numpy(d.astype(np.float32)) for d in ctx.data]
     pad = padding_arg(padding)
     tshape = lambda ti: tuple(int(v) for v in ctx.tgt[ti].n[::-1])  # noqa: E731
+    used = []
+
+    def lay(which, t, batch=False):
+        """t in the requested layout if `which` is the selected argument (batch=True: leading dim is a batch of 2
+        equal items, eligible for the stride-0 'expanded' form)."""
+        if layout is None or layout[0] != which:
+            return t
+        form = layout[1]
+        used.append(which)
+        if form in ("expanded", "repeat"):
+            if not batch:
+                raise NotApplicable(form)
+            return rl.relayout(t[0], form, n=2)
+        if not rl.applicable(t, form):
+            raise NotApplicable(form)
+        return rl.relayout(t, form)
+
+    def done(ret):
+        if layout is not None and not used:
+            raise NotApplicable("argument not taken by this form")
+        return ret
+
+    expanded = layout is not None and layout[1] in ("expanded", "repeat")
+    if expanded and layout[0] == "data" and bform == "N2shared":
+        plan = [(0, 0, 0), (0, 0, 0)]  # stride-0 batch: both items are the same image
     if api.startswith("Image."):
+        t32[0] = lay("data", t32[0])
         im = Image(t32[0], ctx.src_real[0])
         if api == "Image.sample(grid)":
-            return plan, (lambda: im.sample(ctx.tgt_real[0], mode=mode, padding=pad).tensor().unsqueeze(0)), [t32[0], im.tensor()]
+            return done((plan, (lambda: im.sample(ctx.tgt_real[0], mode=mode, padding=pad).tensor().unsqueeze(0)), [t32[0], im.tensor()]))
         co = cube_coords(ctx.src[0], ctx.pts(0, 0), ctx.sac).reshape(tshape(0) + (D,))
-        cot = torch.from_numpy(co.astype(np.float32))
-        return plan, (lambda: im.sample(cot, mode=mode, padding=pad).unsqueeze(0)), [t32[0], im.tensor(), cot]
+        cot = lay("coords", torch.from_numpy(co.astype(np.float32)))
+        return done((plan, (lambda: im.sample(cot, mode=mode, padding=pad).unsqueeze(0)), [t32[0], im.tensor(), cot]))
     grids = [ctx.src_real[p[1]] for p in plan]
-    data = torch.stack([t32[p[0]] for p in plan])
+    data = lay("data", torch.stack([t32[p[0]] for p in plan]), batch=(bform == "N2shared"))
+
+    def coords_tensor():
+        cos = [cube_coords(ctx.src[si], ctx.pts(si, ti), ctx.sac).reshape(tshape(ti) + (D,)) for _, si, ti in plan]
+        if bform == "N2shared":
+            if expanded and layout[0] == "coords":
+                return lay("coords", torch.from_numpy(np.stack(cos[:1] * 2).astype(np.float32)), batch=True)  # (2, ..., D), stride 0
+            cos = cos[:1]  # (1, ..., D) broadcast to both images
+        return torch.from_numpy(np.stack(cos).astype(np.float32))
+
     if api.startswith("ImageBatch."):
         b = ImageBatch(data, grids)
         if api == "ImageBatch.sample(grid)":
-            return plan, (lambda: b.sample(ctx.tgt_real[0], mode=mode, padding=pad).tensor()), [data, b.tensor()]
+            return done((plan, (lambda: b.sample(ctx.tgt_real[0], mode=mode, padding=pad).tensor()), [data, b.tensor()]))
         if api == "ImageBatch.sample(grids)":
             tg = [ctx.tgt_real[p[2]] for p in plan]
-            return plan, (lambda: b.sample(tg, mode=mode, padding=pad).tensor()), [data, b.tensor()]
-        cos = [cube_coords(ctx.src[si], ctx.pts(si, ti), ctx.sac).reshape(tshape(ti) + (D,)) for _, si, ti in plan]
-        if bform == "N2shared":
-            cos = cos[:1]  # (1, ..., D) broadcast to both images
-        cot = torch.from_numpy(np.stack(cos).astype(np.float32))
-        return plan, (lambda: b.sample(cot, mode=mode, padding=pad)), [data, b.tensor(), cot]
+            return done((plan, (lambda: b.sample(tg, mode=mode, padding=pad).tensor()), [data, b.tensor()]))
+        cot = coords_tensor()
+        if not (expanded and layout[0] == "coords"):
+            cot = lay("coords", cot)
+        return done((plan, (lambda: b.sample(cot, mode=mode, padding=pad)), [data, b.tensor(), cot]))
     if api.startswith("U."):
         from deepali.core import image as UI
 
-        cos = [cube_coords(ctx.src[si], ctx.pts(si, ti), ctx.sac).reshape(tshape(ti) + (D,)) for _, si, ti in plan]
-        if bform == "N2shared":
-            cos = cos[:1]
-        cot = torch.from_numpy(np.stack(cos).astype(np.float32))
+        cot = coords_tensor()
         if api == "U.grid_sample":
-            return plan, (lambda: UI.grid_sample(data, cot, mode=mode, padding=pad, align_corners=ctx.sac)), [data, cot]
+            if not (expanded and layout[0] == "coords"):
+                cot = lay("coords", cot)
+            return done((plan, (lambda: UI.grid_sample(data, cot, mode=mode, padding=pad, align_corners=ctx.sac)), [data, cot]))
         flat = cot.reshape(cot.shape[0], -1, D)  # (N, M, D): an arbitrary point set
-        return plan, (lambda: UI.sample_image(data, flat, mode=mode, padding=pad, align_corners=ctx.sac).reshape(
-            (data.shape[0], data.shape[1]) + tshape(plan[0][2]))), [data, flat]
+        if expanded and layout[0] == "coords":
+            if bform != "N2shared":
+                raise NotApplicable("expanded")
+            flat = rl.relayout(flat[0].contiguous(), layout[1], n=2)
+        else:
+            flat = lay("coords", flat)
+        return done((plan, (lambda: UI.sample_image(data, flat, mode=mode, padding=pad, align_corners=ctx.sac).reshape(
+            (data.shape[0], data.shape[1]) + tshape(plan[0][2]))), [data, flat]))
     base, _, rest = api.partition("(axes=")
     axes = rest[:-1] if rest else None
     cls = {"SampleImage": SampleImage, "AlignImage": AlignImage, "TransformImage": TransformImage}[base]
@@ -422,8 +474,9 @@ def prepare(ctx: Ctx, api: str, bform: str, mode: str, padding: str):
             t = ctx.tgt[0]
             p = t.map_points(ri.grid_indices(t.n), rg.GRID, axes).reshape(tshape(0) + (D,))
             pts_t = torch.from_numpy(p.astype(np.float32))
-        return plan, (lambda: mod(pts_t, data)), [data, pts_t]
-    return plan, (lambda: mod(None, data)), [data]
+        pts_t = lay("coords", pts_t.clone())
+        return done((plan, (lambda: mod(pts_t, data)), [data, pts_t]))
+    return done((plan, (lambda: mod(None, data)), [data]))
 
 
 def run_form(ctx: Ctx, api: str, bform: str, mode: str, padding: str, repeat: bool = True):
@@ -536,6 +589,95 @@ def coords_vs_grid(ctx: Ctx, bform, mode, padding, val_coords):
     return out
 
 
+# ---------------------------------------------------------------------------
+# memory layout of user-supplied tensors (reduced sub-menu)
+LAYOUT_FORMS = ["transposed", "sliced", "expanded"]
+LAYOUT_ARGS = ["data", "coords"]
+LAYOUT_PADDINGS = ["zeros", "border", "const"]
+
+
+def _fp_versions(tensors):
+    out = []
+    for t in tensors:
+        b = t._base if t._base is not None else t
+        out.append((t._version, b._version, t.detach().contiguous().numpy().tobytes(), b.detach().contiguous().numpy().tobytes()))
+    return out
+
+
+def judge_layout(ctx: Ctx, api, bform, mode, padding, arg, form):
+    """The named argument in layout `form` vs the contiguous form (same values): no exception, equal result (derived
+    tolerance; bit identity is counted), arguments unchanged (bits and _version of the view and of its base).
+    Returns (problems, status) with status in {'n/a', 'ok', 'bitwise'}."""
+    ref_form = "repeat" if form == "expanded" else "contig"
+    s0, p0 = guarded(prepare, ctx, api, bform, mode, padding, (arg, ref_form))
+    if s0 == "raises":
+        if isinstance(p0, NotApplicable):
+            return [], "n/a"
+        raise p0
+    s1, p1 = guarded(prepare, ctx, api, bform, mode, padding, (arg, form))
+    if s1 == "raises":
+        if isinstance(p1, NotApplicable):
+            return [], "n/a"
+        return [("raises=" + type(p1).__name__, "constructing the receiver: " + exc_text(p1))], "ok"
+    plan, do0, _ = p0
+    _, do1, inputs = p1
+    r0s, v0 = guarded(do0)
+    if r0s == "raises":
+        return [], "n/a"  # reported by the main product
+    fp = _fp_versions(inputs)
+    r1s, v1 = guarded(do1)
+    out = []
+    if _fp_versions(inputs) != fp:
+        out.append(("operand-mutated", f"the {arg} tensor ({form}) or its base buffer was modified (bits or _version)"))
+    if r1s == "raises":
+        out.append(("raises=" + type(v1).__name__, exc_text(v1)))
+        return out, "ok"
+    if tuple(v1.shape) != tuple(v0.shape):
+        out.append(("shape", f"{tuple(v1.shape)} vs contiguous {tuple(v0.shape)}"))
+        return out, "ok"
+    a, b = v1.detach().double().numpy(), v0.detach().double().numpy()
+    tol = max(ctx.tol(si, ti, padding) for _, si, ti in plan)
+    d = np.abs(a - b)
+    if not np.all(d <= tol):
+        out.append(("value", f"result differs from the contiguous form by {np.nanmax(d):.4g} > tol {tol:.2e}"))
+    return out, ("bitwise" if torch.equal(v1.detach(), v0.detach()) else "ok")
+
+
+def layout_sig(api, bform, tname, mode, padding, sac, tac, arg, form, kind):
+    return f"C05/layout/{api}/{bform}/target={tname}/mode={mode}/padding={padding}/ac={'T' if sac else 'F'}{'T' if tac else 'F'}/arg={arg}/layout={form}/{kind}"
+
+
+def layout_shards(tier, seed):
+    out = []
+    for D in (2, 3):
+        for k in (0, 2):  # an impulse source and a pattern source
+            for tname in ("rot20", "coarse"):
+                for sac, tac in ((True, True), (False, True)):
+                    out.append({"tier": tier, "seed": seed, "D": D, "src": k, "target": tname, "sac": sac, "tac": tac, "layout": True})
+    return out
+
+
+def run_layout_shard(acc: Acc, shard, ctx: Ctx, spec):
+    for api, bform in FORMS:
+        for padding in LAYOUT_PADDINGS:
+            for arg in LAYOUT_ARGS:
+                for form in LAYOUT_FORMS:
+                    mode = "linear" if padding != "border" else "nearest"
+                    probs, status = judge_layout(ctx, api, bform, mode, padding, arg, form)
+                    if status == "n/a":
+                        continue
+                    acc.trans(2)
+                    acc.trace("layout")
+                    acc.info["layout_bit_identical"] = acc.info.get("layout_bit_identical", 0) + (1 if status == "bitwise" else 0)
+                    case = {"D": ctx.D, "spec": spec, "target": shard["target"], "sac": shard["sac"], "tac": shard["tac"], "seed": shard["seed"],
+                            "mode": mode, "padding": padding, "api": api, "bform": bform, "layout": {"arg": arg, "form": form}}
+                    for kind, detail in probs:
+                        acc.violation(layout_sig(api, bform, shard["target"], mode, padding, shard["sac"], shard["tac"], arg, form, kind), case, detail, size=1)
+                    acc.outcome("layout", api, bform, padding, arg, form, probs[0][0] if probs else status)
+                    if not probs:
+                        acc.nontriv("layout", ctx.D, spec["k"], shard["target"], shard["sac"], api, bform, padding, arg, form)
+
+
 def sig_of(api, bform, tname, mode, padding, sac, tac, kind):
     return f"C05/{api}/{bform}/target={tname}/mode={mode}/padding={padding}/ac={'T' if sac else 'F'}{'T' if tac else 'F'}/{kind}"
 
@@ -548,6 +690,7 @@ def bounds(tier):
         "modes": len(MODES),
         "paddings": len(PADDINGS),
         "api_batch_forms": len(FORMS),
+        "layout": {"forms": LAYOUT_FORMS, "arguments": LAYOUT_ARGS, "paddings": LAYOUT_PADDINGS, "configurations": len(layout_shards(tier, 0))},
         "configurations": 2 * len(source_specs(2, tier, 0)) * len(TARGETS) * 4 * len(MODES) * len(PADDINGS) * len(FORMS),
     }
 
@@ -560,7 +703,7 @@ def shards(tier: str, seed: int):
                 for sac in (True, False):
                     for tac in (True, False):
                         out.append({"tier": tier, "seed": seed, "D": D, "src": k, "target": tname, "sac": sac, "tac": tac})
-    return out
+    return out + layout_shards(tier, seed)
 
 
 def run_shard(shard) -> Acc:
@@ -568,6 +711,10 @@ def run_shard(shard) -> Acc:
     D, seed = shard["D"], shard["seed"]
     spec = source_specs(D, shard["tier"], seed)[shard["src"]]
     ctx = Ctx(D, spec, shard["target"], shard["sac"], shard["tac"], seed)
+    if shard.get("layout"):
+        acc.state("layout-cfg", D, spec["k"], shard["target"], shard["sac"], shard["tac"])
+        run_layout_shard(acc, shard, ctx, spec)
+        return acc
     acc.state("cfg", D, spec["k"], shard["target"], shard["sac"], shard["tac"])
     for mode in MODES:
         for padding in PADDINGS:
@@ -596,6 +743,11 @@ def run_shard(shard) -> Acc:
 
 def replay(case):
     ctx = Ctx(case["D"], case["spec"], case["target"], case["sac"], case["tac"], case["seed"])
+    if "layout" in case:
+        h = case["layout"]
+        probs, _ = judge_layout(ctx, case["api"], case["bform"], case["mode"], case["padding"], h["arg"], h["form"])
+        return [(layout_sig(case["api"], case["bform"], case["target"], case["mode"], case["padding"], case["sac"], case["tac"], h["arg"], h["form"], kind), detail)
+                for kind, detail in probs]
     probs, extra = judge_form(ctx, case["api"], case["bform"], case["mode"], case["padding"], None)
     if extra is not None and "coords" in case["api"]:
         probs = probs + coords_vs_grid(ctx, case["bform"], case["mode"], case["padding"], extra[0])
